@@ -28,6 +28,22 @@ Unset(f, o) ==
 \* the value written for an unset field: the IDL default when parsed, else the zero value
 FillOf(f, o) == IF f.hasd THEN DecAll(f.dflt.t, f.dflt.b).v ELSE ZeroOf(f.ty)
 
+\* value mapping api.js_conv (EnableValueMapping): a number may come as a string, "" stands for "no number" (the field's
+\* default or zero value), and a string field takes a bare number as its literal text (d.b of a number = the literal)
+HasVm(f, o) == "vm" \in DOMAIN o /\ o.vm /\ "vm" \in DOMAIN f /\ f.vm = "jsconv"
+J2TJs(d, f, o) ==
+  IF d.k = "null" THEN JNull
+  ELSE IF f.ty.t = T_STR THEN
+       (IF d.k = "str" THEN JOk(Scalar(T_STR, d.b)) ELSE IF d.k = "num" THEN JOk(Scalar(T_STR, d.b)) ELSE JUnspec("JsConvKind"))
+  ELSE IF f.ty.t \in IntKinds THEN
+       (IF d.k = "str" /\ d.b = <<>> THEN JOk(FillOf(f, o))
+        ELSE IF d.k \in {"num", "str"} /\ d.isint THEN (IF FitsInt(d.i, FixedSize(f.ty.t)) THEN JOk(IntOf(d.i, f.ty.t)) ELSE JUnspec("OutOfRange"))
+        ELSE JUnspec("JsConvNonInteger"))
+  ELSE IF f.ty.t = T_DBL THEN
+       (IF d.k = "str" /\ d.b = <<>> THEN JOk(FillOf(f, o))
+        ELSE IF d.k = "num" /\ d.f # <<>> THEN JOk(Scalar(T_DBL, d.f))
+        ELSE JUnspec("JsConvQuotedDouble"))
+  ELSE JUnspec("JsConvType")
 RECURSIVE J2TV(_, _, _, _), J2TMembers(_, _, _, _, _, _, _), J2TElems(_, _, _, _, _), J2TPairs(_, _, _, _, _, _)
 J2TV(d, ty, defs, o) ==
   IF d.k = "null" THEN JNull
@@ -94,7 +110,7 @@ J2TMembers(ms, fields, defs, o, acc, seen, nulls) ==
        IF S = {} THEN (IF o.disallow THEN JErr("UnknownField") ELSE J2TMembers(Tail(ms), fields, defs, o, acc, seen, nulls))
        ELSE LET f == fields[CHOOSE i \in S : TRUE] IN
             IF f.id \in seen \/ f.id \in nulls THEN JUnspec("DuplicateMember")
-            ELSE LET r == J2TV(m.v, f.ty, defs, o) IN
+            ELSE LET r == IF HasVm(f, o) THEN J2TJs(m.v, f, o) ELSE J2TV(m.v, f.ty, defs, o) IN
                  IF r.st = "ok" THEN J2TMembers(Tail(ms), fields, defs, o, Append(acc, [id |-> f.id, v |-> r.v]), seen \cup {f.id}, nulls)
                  ELSE IF r.st = "null" THEN J2TMembers(Tail(ms), fields, defs, o, acc, seen, nulls \cup {f.id})
                  ELSE r
